@@ -214,15 +214,38 @@ Proof.
 Qed.
 
 (* exec_queue only threads run_plain *)
-Lemma exec_queue_other_conn now cid q : forall st c2,
+(* (the clock advances by one per executed queued command, hence the quantification over now) *)
+Lemma exec_queue_other_conn cid q : forall now st c2,
   c2 <> cid -> get_conn (fst (exec_queue now st cid q)) c2 = get_conn st c2.
 Proof.
-  induction q as [|cmd q IH]; intros st c2 Hne; [reflexivity|].
+  induction q as [|cmd q IH]; intros now st c2 Hne; [reflexivity|].
   destruct cmd as [|name args]; cbn [exec_queue]; [apply IH; assumption|].
-  destruct (exec_queue now (o_st (run_plain now st cid (lower name) args true)) cid q) as [st' rs] eqn:E.
-  cbn [fst]. change st' with (fst (st', rs)). rewrite <- E. rewrite IH by assumption.
+  specialize (IH (now + 1) (o_st (run_plain now st cid (lower name) args true)) c2 Hne).
+  destruct (exec_queue (now + 1) (o_st (run_plain now st cid (lower name) args true)) cid q) as [st' rs].
+  cbn [fst] in *. rewrite IH.
   eapply shape_other_conn; [apply run_plain_shape | assumption].
 Qed.
+
+(* [flag_tx]: the arity error of a control command inside an open transaction *)
+Lemma flag_tx_none st cid c : c_queue c = None -> flag_tx st cid c = st.
+Proof. intro H. unfold flag_tx. rewrite H. reflexivity. Qed.
+
+Lemma flag_tx_some st cid c q :
+  c_queue c = Some q ->
+  flag_tx st cid c = set_conn st cid (mkConn (c_sel c) (c_resp c) (c_name c) (Some q) true (c_watch c)).
+Proof. intro H. unfold flag_tx. rewrite H. reflexivity. Qed.
+
+Lemma flag_tx_other_conn st cid c c2 : c2 <> cid -> get_conn (flag_tx st cid c) c2 = get_conn st c2.
+Proof.
+  intro Hne. unfold flag_tx. destruct (c_queue c); [|reflexivity].
+  apply get_conn_set_conn_other; assumption.
+Qed.
+
+Lemma flag_tx_dbs st cid c : s_dbs (flag_tx st cid c) = s_dbs st.
+Proof. unfold flag_tx. destruct (c_queue c); reflexivity. Qed.
+
+Lemma get_db_flag_tx st cid c i : get_db (flag_tx st cid c) i = get_db st i.
+Proof. unfold flag_tx. destruct (c_queue c); reflexivity. Qed.
 
 (* ---------- unfolding equations of [step] ---------- *)
 Definition is_name (name0 : bytes) (s : string) : Prop := lower name0 = s2b s.
@@ -275,7 +298,7 @@ Lemma step_multi_eq now st cid name0 args :
   match args, c_queue c with
   | [], None => mkOut (set_conn st cid (mkConn (c_sel c) (c_resp c) (c_name c) (Some []) false (c_watch c))) ok false
   | [], Some _ => mkOut st (err "ERR MULTI calls can not be nested") false
-  | _, _ => mkOut st argerr false
+  | _, _ => mkOut (flag_tx st cid c) argerr false
   end.
 Proof. intros H. unfold step. cbv beta iota zeta. rewrite H. reflexivity. Qed.
 
@@ -286,13 +309,13 @@ Lemma step_discard_eq now st cid name0 args :
   match args, c_queue c with
   | [], Some _ => mkOut (set_conn st cid (reset_tx c)) ok false
   | [], None => mkOut st (err "ERR DISCARD without MULTI") false
-  | _, _ => mkOut st argerr false
+  | _, _ => mkOut (flag_tx st cid c) argerr false
   end.
 Proof. intros H. unfold step. cbv beta iota zeta. rewrite H. reflexivity. Qed.
 
-Lemma step_watch_multi_eq now st cid name0 args q :
+Lemma step_watch_multi_eq now st cid name0 a args q :
   lower name0 = s2b "watch" -> c_queue (get_conn st cid) = Some q ->
-  step now st cid (name0 :: args) = mkOut st (err "ERR WATCH inside MULTI is not allowed") false.
+  step now st cid (name0 :: a :: args) = mkOut st (err "ERR WATCH inside MULTI is not allowed") false.
 Proof. intros H Hq. unfold step. cbv beta iota zeta. rewrite H, Hq. reflexivity. Qed.
 
 Lemma step_exec_eq now st cid name0 args :
@@ -300,7 +323,7 @@ Lemma step_exec_eq now st cid name0 args :
   step now st cid (name0 :: args) =
   let c := get_conn st cid in
   match args, c_queue c with
-  | _ :: _, _ => mkOut st argerr false
+  | _ :: _, _ => mkOut (flag_tx st cid c) argerr false
   | [], None => mkOut st (err "ERR EXEC without MULTI") false
   | [], Some q =>
     if c_qerr c then
@@ -322,7 +345,11 @@ Lemma step_watch_eq now st cid name0 args :
   step now st cid (name0 :: args) =
   let c := get_conn st cid in
   match c_queue c with
-  | Some _ => mkOut st (err "ERR WATCH inside MULTI is not allowed") false
+  | Some _ =>
+    match args with
+    | [] => mkOut (flag_tx st cid c) argerr false
+    | _ => mkOut st (err "ERR WATCH inside MULTI is not allowed") false
+    end
   | None =>
     match args with
     | [] => mkOut st argerr false
@@ -372,23 +399,26 @@ Proof.
   destruct (is_tx_control (lower name0)) eqn:Ht.
   - apply tx_control_cases in Ht as [Hn|[Hn|[Hn|Hn]]].
     + rewrite (step_multi_eq now st cid name0 args Hn). cbv zeta.
-      destruct args; destruct (c_queue (get_conn st cid)); cbn [o_st]; try reflexivity.
+      destruct args; destruct (c_queue (get_conn st cid)); cbn [o_st];
+        first [apply flag_tx_other_conn; assumption | reflexivity | idtac].
       apply get_conn_set_conn_other; assumption.
     + rewrite (step_exec_eq now st cid name0 args Hn). cbv zeta.
-      destruct args; [|reflexivity].
+      destruct args; [|cbn [o_st]; apply flag_tx_other_conn; assumption].
       destruct (c_queue (get_conn st cid)) as [q|]; [|reflexivity].
       destruct (c_qerr (get_conn st cid)).
       { cbn [o_st]. apply get_conn_set_conn_other; assumption. }
       destruct (watch_dirty now st (c_watch (get_conn st cid))).
       { cbn [o_st]. apply get_conn_set_conn_other; assumption. }
-      pose proof (exec_queue_other_conn now cid q (set_conn st cid (reset_tx (get_conn st cid))) c2 Hne) as H.
+      pose proof (exec_queue_other_conn cid q now (set_conn st cid (reset_tx (get_conn st cid))) c2 Hne) as H.
       destruct (exec_queue now (set_conn st cid (reset_tx (get_conn st cid))) cid q) as [st2 rs].
       cbn [o_st fst] in *. rewrite H. apply get_conn_set_conn_other; assumption.
     + rewrite (step_discard_eq now st cid name0 args Hn). cbv zeta.
-      destruct args; destruct (c_queue (get_conn st cid)); cbn [o_st]; try reflexivity.
+      destruct args; destruct (c_queue (get_conn st cid)); cbn [o_st];
+        first [apply flag_tx_other_conn; assumption | reflexivity | idtac].
       apply get_conn_set_conn_other; assumption.
     + rewrite (step_watch_eq now st cid name0 args Hn). cbv zeta.
-      destruct (c_queue (get_conn st cid)); [reflexivity|].
+      destruct (c_queue (get_conn st cid)).
+      { destruct args; cbn [o_st]; [apply flag_tx_other_conn; assumption | reflexivity]. }
       destruct args; cbn [o_st]; [reflexivity|].
       apply get_conn_set_conn_other; assumption.
   - rewrite (step_plain_eq now st cid name0 args Hk Ht). cbv zeta.
@@ -904,22 +934,30 @@ Qed.
 Definition not_hello (cmd : list bytes) : Prop :=
   match cmd with [] => True | n :: _ => lower n <> s2b "hello" end.
 
-Lemma exec_queue_resp now cid q : forall st c2,
+(* (the clock advances by one per executed queued command, hence the quantification over now) *)
+Lemma exec_queue_resp cid q : forall now st c2,
   (Forall not_hello q -> c_resp (get_conn (fst (exec_queue now st cid q)) c2) = c_resp (get_conn st c2)) /\
   (resp_ok (get_conn st c2) -> resp_ok (get_conn (fst (exec_queue now st cid q)) c2)).
 Proof.
-  induction q as [|cmd q IH]; intros st c2; [split; auto|].
+  induction q as [|cmd q IH]; intros now st c2; [split; auto|].
   destruct cmd as [|name args]; cbn [exec_queue].
-  - destruct (IH st c2) as [IH1 IH2]. split; [|assumption].
+  - destruct (IH now st c2) as [IH1 IH2]. split; [|assumption].
     intro H. apply IH1. inversion H; assumption.
-  - destruct (IH (o_st (run_plain now st cid (lower name) args true)) c2) as [IH1 IH2].
+  - destruct (IH (now + 1) (o_st (run_plain now st cid (lower name) args true)) c2) as [IH1 IH2].
     pose proof (run_plain_resp now st cid (lower name) args true c2) as Hr. cbv zeta in Hr.
-    destruct (exec_queue now (o_st (run_plain now st cid (lower name) args true)) cid q) as [st' rs].
+    destruct (exec_queue (now + 1) (o_st (run_plain now st cid (lower name) args true)) cid q) as [st' rs].
     cbn [fst] in *. split.
     + intro H. inversion H as [|? ? Hh Ht]; subst. rewrite (IH1 Ht).
       destruct Hr as [Hr|(_ & Hr & _)]; [assumption | contradiction].
     + intro H. apply IH2. destruct Hr as [Hr|(_ & _ & Hr)]; [|assumption].
       unfold resp_ok. rewrite Hr. exact H.
+Qed.
+
+(* flagging an open transaction (arity error of a control command) keeps the protocol version *)
+Lemma flag_tx_resp st cid :
+  c_resp (get_conn (flag_tx st cid (get_conn st cid)) cid) = c_resp (get_conn st cid).
+Proof.
+  unfold flag_tx. destruct (c_queue (get_conn st cid)); [rewrite get_conn_set_conn_same|]; reflexivity.
 Qed.
 
 (* RESP2 until HELLO, and after HELLO 3 RESP3 until the next HELLO: any command other than
@@ -940,24 +978,27 @@ Proof.
   destruct (is_tx_control (lower name0)) eqn:Ht.
   - apply tx_control_cases in Ht as [Hn|[Hn|[Hn|Hn]]].
     + rewrite (step_multi_eq now st cid name0 args Hn). cbv zeta.
-      destruct args; destruct (c_queue (get_conn st cid)); cbn [o_st]; try reflexivity.
+      destruct args; destruct (c_queue (get_conn st cid)) eqn:Eq; cbn [o_st];
+        first [apply flag_tx_resp | reflexivity | idtac].
       rewrite get_conn_set_conn_same. reflexivity.
     + specialize (Hex Hn). rewrite (step_exec_eq now st cid name0 args Hn). cbv zeta.
-      destruct args; [|reflexivity].
+      destruct args; [|cbn [o_st]; apply flag_tx_resp].
       destruct (c_queue (get_conn st cid)) as [q|]; [|reflexivity].
       destruct (c_qerr (get_conn st cid)).
       { cbn [o_st]. rewrite get_conn_set_conn_same. reflexivity. }
       destruct (watch_dirty now st (c_watch (get_conn st cid))).
       { cbn [o_st]. rewrite get_conn_set_conn_same. reflexivity. }
-      destruct (exec_queue_resp now cid q (set_conn st cid (reset_tx (get_conn st cid))) cid) as [H _].
+      destruct (exec_queue_resp cid q now (set_conn st cid (reset_tx (get_conn st cid))) cid) as [H _].
       specialize (H Hex).
       destruct (exec_queue now (set_conn st cid (reset_tx (get_conn st cid))) cid q) as [st2 rs].
       cbn [o_st fst] in *. rewrite H, get_conn_set_conn_same. reflexivity.
     + rewrite (step_discard_eq now st cid name0 args Hn). cbv zeta.
-      destruct args; destruct (c_queue (get_conn st cid)); cbn [o_st]; try reflexivity.
+      destruct args; destruct (c_queue (get_conn st cid)) eqn:Eq; cbn [o_st];
+        first [apply flag_tx_resp | reflexivity | idtac].
       rewrite get_conn_set_conn_same. reflexivity.
     + rewrite (step_watch_eq now st cid name0 args Hn). cbv zeta.
-      destruct (c_queue (get_conn st cid)); [reflexivity|].
+      destruct (c_queue (get_conn st cid)) eqn:Eq.
+      { destruct args; cbn [o_st]; [apply flag_tx_resp | reflexivity]. }
       destruct args; cbn [o_st]; [reflexivity|].
       rewrite get_conn_set_conn_same. reflexivity.
   - rewrite (step_plain_eq now st cid name0 args Hk Ht). cbv zeta.
@@ -986,13 +1027,13 @@ Proof.
         [unfold resp_ok; rewrite H; exact Hok | exact H].
   - destruct (bytes_eq_dec (lower name0) (s2b "exec")) as [He|He].
     + rewrite (step_exec_eq now st cid name0 args He). cbv zeta.
-      destruct args; [|exact Hok].
+      destruct args; [|cbn [o_st]; unfold resp_ok; rewrite flag_tx_resp; exact Hok].
       destruct (c_queue (get_conn st cid)) as [q|]; [|exact Hok].
       assert (Hr : resp_ok (get_conn (set_conn st cid (reset_tx (get_conn st cid))) cid)).
       { rewrite get_conn_set_conn_same. exact Hok. }
       destruct (c_qerr (get_conn st cid)); [exact Hr|].
       destruct (watch_dirty now st (c_watch (get_conn st cid))); [exact Hr|].
-      destruct (exec_queue_resp now cid q (set_conn st cid (reset_tx (get_conn st cid))) cid) as [_ H].
+      destruct (exec_queue_resp cid q now (set_conn st cid (reset_tx (get_conn st cid))) cid) as [_ H].
       specialize (H Hr).
       destruct (exec_queue now (set_conn st cid (reset_tx (get_conn st cid))) cid q) as [st2 rs].
       exact H.
